@@ -179,7 +179,7 @@ func cmdCheck(args []string) {
 			seed = k
 		}
 	}
-	timeout := 10
+	timeout := 20
 	thorough := false
 	if *tier == "thorough" {
 		timeout = 60
